@@ -44,8 +44,16 @@ def run_native(core: Any, img: Dict[str, Any], cfg: Dict[str, Any]) -> Dict[str,
     """build the image through the extension's own API and run it from img['ip']"""
     w = img['w']
     kwargs: Dict[str, Any] = {}
-    if cfg.get('flat_max_words'):
-        kwargs['flat_max_words'] = cfg['flat_max_words']
+    if cfg.get('mode') == 'hybrid' and img.get('flat_count'):
+        kwargs['flat_max_words'] = img['flat_count']
+    if cfg.get('mode') == 'paged':
+        os.environ['FLIPJUMP_NO_FLAT'] = '1'
+    else:
+        os.environ.pop('FLIPJUMP_NO_FLAT', None)
+    if cfg.get('loop') == 'run_measured_loop':
+        os.environ['FLIPJUMP_MEASURE_SPECULATION'] = '1'
+    else:
+        os.environ.pop('FLIPJUMP_MEASURE_SPECULATION', None)
     mem = core.Memory(w, **kwargs)
     for s, e in img['segments']:
         mem.add_segment(s, e - s)
@@ -67,7 +75,7 @@ def run_native(core: Any, img: Dict[str, Any], cfg: Dict[str, Any]) -> Dict[str,
     def write_bit(b: bool) -> None:
         out.append(bool(b))
     try:
-        cause, ops, err, last_ops, paused = mem.run(read_bit, write_bit, EOFx, last_ops_length=cfg.get('last_ops', 0), start_ip=img['ip'])
+        cause, ops, err, last_ops, paused = mem.run(read_bit, write_bit, EOFx, last_ops_length=cfg.get('ring', 0), start_ip=img['ip'])
         res = {'status': {0: pyspec.LOOPING, 1: pyspec.EOF, 2: pyspec.NULLIP, 3: pyspec.MEMERR}[cause], 'ops': ops, 'fault': err,
                'out': out, 'reads': reads[0], 'last_ops': list(last_ops), 'storage': mem.storage_mode}
     except Exception as e:  # noqa: BLE001
@@ -134,8 +142,8 @@ def _child(case: Dict[str, Any], q: Any) -> None:
             if k in real.get('final', {}) and real['final'][k] != v and isinstance(real.get('status'), int):
                 differs = True
                 why.append(f'word {k}')
-        if cfg.get('last_ops') and isinstance(real.get('status'), int):
-            L = cfg['last_ops']
+        if cfg.get('ring') and isinstance(real.get('status'), int):
+            L = cfg['ring']
             if real.get('last_ops') != want['started'][-L:]:
                 differs = True
                 why.append('last_ops')
